@@ -110,7 +110,8 @@ let () =
         | Stack_overflow -> Buffer.clear b; Buffer.add_string b "(-4) ; stack overflow"
         | Out_of_memory -> Buffer.clear b; Buffer.add_string b "(-4) ; out of memory");
        print_string (Buffer.contents b);
-       print_char '\n'
+       print_char '\n';
+       flush stdout   (* one result per line, visible at once: the orchestrator detects a hanging case by output inactivity *)
      done
    with End_of_file -> ());
   flush stdout
